@@ -1896,6 +1896,16 @@ def sym_hash(x: Any) -> int:
   """
   if isinstance(x, Symbolic):
     return x.sym_hash()
+  # Plain containers hash as the symbolic containers they are `eq` to.
+  if isinstance(x, list):
+    return sym_hash((Symbolic.ListType, tuple([sym_hash(e) for e in x])))
+  if isinstance(x, tuple):
+    return hash(tuple([sym_hash(e) for e in x]))
+  if isinstance(x, dict):
+    return sym_hash(
+        (Symbolic.DictType,
+         frozenset((k, sym_hash(v)) for k, v in x.items()
+                   if v != pg_typing.MISSING_VALUE)))
   if inspect.isfunction(x):
     return hash(x.__code__.co_code)
   if inspect.ismethod(x):
